@@ -398,6 +398,87 @@ pub struct HistoryStats {
 
 /// Runs a history; returns the first step whose result differs from its fresh-thread reference.
 pub fn run_history(h: &History, cache: &mut RefCache, stats: &mut HistoryStats) -> Option<Violation> {
+    run_history_with(h, cache, stats, false)
+}
+
+/// The same call alone in a FRESH PROCESS (what no thread of this process can have influenced).
+fn process_reference(op: &Op) -> Result<(u8, u64, usize), String> {
+    let out = spawn_self("c10-ref", &serde_json::to_string(op).unwrap())?;
+    let v: serde_json::Value = serde_json::from_str(out.trim()).map_err(|e| format!("c10-ref output: {e}: {out}"))?;
+    Ok((
+        v["kind"].as_u64().ok_or("c10-ref: kind")? as u8,
+        v["fnv"].as_u64().ok_or("c10-ref: fnv")?,
+        v["len"].as_u64().ok_or("c10-ref: len")? as usize,
+    ))
+}
+
+fn spawn_self(cmd: &str, stdin_text: &str) -> Result<String, String> {
+    use std::io::Write;
+    let exe = std::env::current_exe().map_err(|e| format!("current_exe: {e}"))?;
+    let mut c = std::process::Command::new(exe);
+    c.arg(cmd).stdin(std::process::Stdio::piped()).stdout(std::process::Stdio::piped()).stderr(std::process::Stdio::inherit());
+    if crate::logger::installed() {
+        c.arg("--logger");
+    }
+    let mut child = c.spawn().map_err(|e| format!("spawn {cmd}: {e}"))?;
+    child.stdin.take().unwrap().write_all(stdin_text.as_bytes()).map_err(|e| format!("{cmd} stdin: {e}"))?;
+    let out = child.wait_with_output().map_err(|e| format!("{cmd} wait: {e}"))?;
+    if !out.status.success() {
+        return Err(format!("{cmd} exited with {:?}", out.status.code()));
+    }
+    String::from_utf8(out.stdout).map_err(|e| format!("{cmd} output: {e}"))
+}
+
+/// `seamsim c10-ref`: one call (JSON on stdin) alone in this fresh process; prints the digest of its result.
+pub fn proc_ref_main() {
+    let mut text = String::new();
+    std::io::Read::read_to_string(&mut std::io::stdin(), &mut text).expect("HARNESS: stdin");
+    let op: Op = serde_json::from_str(&text).unwrap_or_else(|e| crate::harness_error(&format!("c10-ref: bad op: {e}")));
+    let d = reference(&op).digest();
+    println!("{}", json!({"kind": d.0, "fnv": d.1, "len": d.2}));
+}
+
+/// `seamsim c10-proc`: one history (JSON on stdin) in this fresh process, every call also compared with the same
+/// call alone in a process of its own; prints the verdict.
+pub fn proc_history_main() {
+    let mut text = String::new();
+    std::io::Read::read_to_string(&mut std::io::stdin(), &mut text).expect("HARNESS: stdin");
+    let h: History = serde_json::from_str(&text).unwrap_or_else(|e| crate::harness_error(&format!("c10-proc: bad history: {e}")));
+    let mut cache = RefCache::default();
+    let mut stats = HistoryStats { digest: 0, ops: 0, panics: 0, errs: 0 };
+    let v = run_history_with(&h, &mut cache, &mut stats, true);
+    println!(
+        "{}",
+        json!({
+            "violation": v.map(|v| json!({"class": v.class, "site": v.site, "message": v.message, "detail": v.detail, "case": v.case})),
+            "ops": stats.ops, "errs": stats.errs, "panics": stats.panics, "digest": stats.digest,
+        })
+    );
+}
+
+/// Runs a history in a fresh process (see `proc_history_main`).
+pub fn run_history_in_fresh_process(h: &History, stats: &mut HistoryStats) -> Result<Option<Violation>, String> {
+    let out = spawn_self("c10-proc", &serde_json::to_string(h).unwrap())?;
+    let v: serde_json::Value = serde_json::from_str(out.trim()).map_err(|e| format!("c10-proc output: {e}: {out}"))?;
+    stats.ops += v["ops"].as_u64().unwrap_or(0);
+    stats.errs += v["errs"].as_u64().unwrap_or(0);
+    stats.panics += v["panics"].as_u64().unwrap_or(0);
+    stats.digest = stats.digest.wrapping_add(v["digest"].as_u64().unwrap_or(0));
+    let viol = &v["violation"];
+    if viol.is_null() {
+        return Ok(None);
+    }
+    let g = |k: &str| viol[k].as_str().unwrap_or("").to_owned();
+    Ok(Some(Violation {
+        class: g("class"),
+        site: g("site"),
+        message: g("message"),
+        detail: g("detail"),
+        case: viol["case"].clone(),
+    }))
+}
+
+fn run_history_with(h: &History, cache: &mut RefCache, stats: &mut HistoryStats, proc_ref: bool) -> Option<Violation> {
     let callers = Callers::new(h.nthreads.max(1));
     let mut found = None;
     for (i, st) in h.steps.iter().enumerate() {
@@ -449,6 +530,32 @@ pub fn run_history(h: &History, cache: &mut RefCache, stats: &mut HistoryStats) 
                 case: json!({"history": h, "failing_step": i}),
             });
             break;
+        }
+        if proc_ref {
+            let want = process_reference(&st.op).unwrap_or_else(|e| crate::harness_error(&format!("fresh-process reference: {e}")));
+            if got.digest() != want {
+                let prev: Vec<String> = h.steps[..i]
+                    .iter()
+                    .enumerate()
+                    .map(|(j, s)| format!("#{j} t{} {} ({})", s.thread, s.op.name(), s.derived))
+                    .collect();
+                found = Some(Violation {
+                    class: "process_history_dependent_result".into(),
+                    site: st.op.name().into(),
+                    message: String::new(),
+                    detail: format!(
+                        "step #{i} ({} on caller thread {}, arguments {}) gave {} - the same as alone on a fresh thread of this process, but the same call alone in a fresh process gives digest {:?}; preceding steps: [{}]",
+                        st.op.name(),
+                        st.thread,
+                        st.derived,
+                        got.short(),
+                        want,
+                        prev.join(", ")
+                    ),
+                    case: json!({"history": h, "failing_step": i, "fresh_process": true}),
+                });
+                break;
+            }
         }
     }
     callers.finish();
@@ -588,7 +695,15 @@ pub fn run(ctx: &crate::RunCtx) -> (Summary, Vec<Violation>) {
         if same_bucket_pair(&h) {
             *sum.probes.entry("alpha_pair_in_same_1_65535_bucket".into()).or_default() += 1;
         }
-        if let Some(v) = run_history(&h, &mut cache, &mut stats) {
+        let verdict = if i % 16 == 7 {
+            // one history in sixteen runs in a process of its own, every call also compared with the same call
+            // alone in a fresh process: state shared by ALL threads of a process is invisible to a fresh thread
+            *sum.probes.entry("histories_run_in_a_process_of_their_own".into()).or_default() += 1;
+            run_history_in_fresh_process(&h, &mut stats).unwrap_or_else(|e| crate::harness_error(&format!("history in a fresh process: {e}")))
+        } else {
+            run_history(&h, &mut cache, &mut stats)
+        };
+        if let Some(v) = verdict {
             *sum.classes.entry(v.class.clone()).or_default() += 1;
             viols.push(v);
         }
@@ -613,6 +728,9 @@ pub fn exec(case: &serde_json::Value) -> Result<Option<Violation>, String> {
     let h = parse_case(case)?;
     let mut cache = RefCache::default();
     let mut stats = HistoryStats { digest: 0, ops: 0, panics: 0, errs: 0 };
+    if case.get("fresh_process").and_then(serde_json::Value::as_bool) == Some(true) {
+        return run_history_in_fresh_process(&h, &mut stats);
+    }
     Ok(run_history(&h, &mut cache, &mut stats))
 }
 
@@ -624,8 +742,9 @@ pub fn minimise(case: &serde_json::Value, class: &str, site: &str) -> serde_json
     };
     let mut cache = RefCache::default();
     let mut stats = HistoryStats { digest: 0, ops: 0, panics: 0, errs: 0 };
+    let in_process = case.get("fresh_process").and_then(serde_json::Value::as_bool) != Some(true);
     let fails = |h: &History, cache: &mut RefCache, stats: &mut HistoryStats| -> Option<usize> {
-        run_history(h, cache, stats)
+        if in_process { run_history(h, cache, stats) } else { run_history_in_fresh_process(h, stats).ok().flatten() }
             .filter(|v| v.class == class && v.site == site)
             .and_then(|v| v.case.get("failing_step").and_then(serde_json::Value::as_u64))
             .map(|x| x as usize)
@@ -659,5 +778,9 @@ pub fn minimise(case: &serde_json::Value, class: &str, site: &str) -> serde_json
         h = single;
     }
     let f = fails(&h, &mut cache, &mut stats).unwrap_or(h.steps.len().saturating_sub(1));
-    json!({"history": h, "failing_step": f})
+    if in_process {
+        json!({"history": h, "failing_step": f})
+    } else {
+        json!({"history": h, "failing_step": f, "fresh_process": true})
+    }
 }
